@@ -12,6 +12,7 @@ import DocsModel.Model.Replica
 import DocsModel.Model.Events
 import DocsModel.Model.Actor
 import DocsModel.Model.Rpc
+import DocsModel.Model.Node
 import DocsModel.Model.Codec
 import DocsModel.Model.Session
 import DocsModel.Model.Coord
@@ -88,6 +89,15 @@ structure World where
   subsSpec : List ((Nat × Bytes) × Nat) := []
   /-- specification bookkeeping for C14: handles per (actor, document) = opens − releases -/
   handleCounts : List ((Nat × Bytes) × Nat) := []
+  /-- docs nodes seen through the client API (`Model/Node.lean`) -/
+  nodes : List (Nat × DocNode.NState) := []
+  /-- specification bookkeeping for a node: per (node, document) the accepted writes since the
+  document was (re-)created, merged by the abstract store of C02 -/
+  nodeDocs : List ((Nat × Bytes) × Spec.Store) := []
+  /-- the policy last set per (node, document) since the document was (re-)created -/
+  nodePolicy : List ((Nat × Bytes) × Tables.Policy) := []
+  /-- acknowledged peer registrations per (node, document) since it was (re-)created, oldest first -/
+  nodeRegs : List ((Nat × Bytes) × List Bytes) := []
 
 namespace World
 
@@ -433,8 +443,164 @@ def swarmDeliver (w : World) (short : Bool) (sid i ns now tok : String) : World 
     | none => (w, "no-store")
   | _, _, _, _, _ => (w, "bad-op")
 
+
+/-! ## the docs node (`Model/Node.lean`) -/
+
+def parseNodeReq? : List String → Option DocNode.Req
+  | ["create", ns, raw] => do pure (.create (← Bytes.ofHex ns) (← Bytes.ofHex raw))
+  | ["import", ns, kind, raw] => do pure (.importNs (← Bytes.ofHex ns) (← parseNat? kind) (← Bytes.ofHex raw))
+  | ["open", ns] => do pure (.openDoc (← Bytes.ofHex ns))
+  | ["close", ns] => do pure (.closeDoc (← Bytes.ofHex ns))
+  | ["status", ns] => do pure (.status (← Bytes.ofHex ns))
+  | ["drop", ns] => do pure (.dropDoc (← Bytes.ofHex ns))
+  | ["set", tok] => do let e ← parseEntry? tok; pure (.setHash e.ns e)
+  | ["getexact", ns, au, key, incl] => do
+    pure (.getExact (← Bytes.ofHex ns) (← Bytes.ofHex au) (← Bytes.ofHex key) (← parseBool? incl))
+  | "getmany" :: ns :: q => do pure (.getMany (← Bytes.ofHex ns) (← parseQuery? q))
+  | ["setpolicy", ns, pol] => do pure (.setPolicy (← Bytes.ofHex ns) (← parsePolicy? pol))
+  | ["getpolicy", ns] => do pure (.getPolicy (← Bytes.ofHex ns))
+  | ["peers", ns] => do pure (.getSyncPeers (← Bytes.ofHex ns))
+  | ["regpeer", ns, nanos, peer] => do pure (.registerPeer (← Bytes.ofHex ns) (← parseNat? nanos) (← Bytes.ofHex peer))
+  | ["startsync", ns] => do pure (.startSync (← Bytes.ofHex ns))
+  | ["leave", ns] => do pure (.leave (← Bytes.ofHex ns))
+  | ["share", ns, w] => do pure (.share (← Bytes.ofHex ns) (← parseBool? w))
+  | ["subscribe", ns] => do pure (.subscribe (← Bytes.ofHex ns))
+  | ["aimport", a, raw] => do pure (.authorImport (← Bytes.ofHex a) (← Bytes.ofHex raw))
+  | ["aexport", a] => do pure (.authorExport (← Bytes.ofHex a))
+  | ["adelete", a] => do pure (.authorDelete (← Bytes.ofHex a))
+  | ["alist"] => some .authorList
+  | ["adefault"] => some .authorDefault
+  | ["asetdefault", a] => do pure (.authorSetDefault (← Bytes.ofHex a))
+  | ["hashes"] => some .contentHashes
+  | ["list"] => some .listDocs
+  | _ => none
+
+def sortHex (l : List Bytes) : List String :=
+  ((l.map (·.toHex)).toArray.qsort (fun a b => a < b)).toList.eraseDups
+
+def showNodeReply (quiet : Bool) : DocNode.Reply → String
+  | .act r => (match quiet, r with | true, .inserted _ => "inserted" | _, r => showReply r)
+  | .wrote r subs =>
+    (match quiet, r with | true, .inserted _ => "inserted" | _, r => showReply r) ++
+      " events=" ++ ",".intercalate (subs.map toString)
+  | .policy p => "policy " ++ showPolicy p
+  | .peers none => "peers none"
+  | .peers (some l) => "peers " ++ ",".intercalate (l.map (·.toHex))
+  | .author none => "author none"
+  | .author (some raw) => "author " ++ raw.toHex
+  | .authors l => "authors " ++ ",".intercalate (l.map (·.toHex))
+  | .authorId a => "id " ++ a.toHex
+  | .hashes l => "hashes " ++ ",".intercalate (sortHex l)
+  | .docs l => "namespaces " ++ ";".intercalate (l.map fun (ns, k) => ns.toHex ++ "=" ++ toString k)
+  | .ticket kind raw => "ticket " ++ toString kind ++ " " ++ raw.toHex
+  | .subscribed id => "subscribed " ++ toString id
+  | .errAuthorNotFound => "err:author-not-found"
+  | .errDefaultAuthor => "err:default-author"
+  | .errNoDocument => "err:no-document"
+
+/-- requests to a node, and the specification lines about it. The bookkeeping for the
+specification follows the acknowledged requests only, never the model's state. -/
+def stepNode (w : World) : List String → Option (World × String)
+  | ["nnew", sid, a, raw] => do
+    let sid ← parseNat? sid
+    pure ({ w with nodes := (sid, DocNode.init (← Bytes.ofHex a) (← Bytes.ofHex raw)) :: w.nodes.filter (·.1 != sid) }, "ok")
+  | "node" :: sid :: rest => do
+    let sid ← parseNat? sid
+    let quiet := rest.head? == some "setq"
+    let rest := match rest with | "setq" :: r => "set" :: r | r => r
+    let req ← parseNodeReq? rest
+    match w.nodes.lookup sid with
+    | none => pure (w, "no-store")
+    | some st =>
+      let (st', out) := DocNode.step st req
+      -- a write refused before it reaches the replica announces nothing either
+      let shown := match req, out with
+        | .setHash _ _, .errAuthorNotFound => "err:author-not-found events="
+        | _, out => showNodeReply quiet out
+      pure ({ w with nodes := (sid, st') :: w.nodes.filter (·.1 != sid) }, shown)
+  -- history for the specification: an acknowledged write / policy / registration / (re-)creation / removal
+  | ["nhist", sid, "wrote", tok] => do
+    let sid ← parseNat? sid
+    let e ← parseEntry? tok
+    let st := (w.nodeDocs.lookup (sid, e.ns)).getD []
+    pure ({ w with nodeDocs := ((sid, e.ns), (Spec.put st e).1) :: w.nodeDocs.filter (·.1 != (sid, e.ns)) }, "ok")
+  | ["nhist", sid, "policy", ns, pol] => do
+    let sid ← parseNat? sid
+    let ns ← Bytes.ofHex ns
+    let pol ← parsePolicy? pol
+    pure ({ w with nodePolicy := ((sid, ns), pol) :: w.nodePolicy.filter (·.1 != (sid, ns)) }, "ok")
+  | ["nhist", sid, "peer", ns, peer] => do
+    let sid ← parseNat? sid
+    let ns ← Bytes.ofHex ns
+    let peer ← Bytes.ofHex peer
+    let l := (w.nodeRegs.lookup (sid, ns)).getD []
+    pure ({ w with nodeRegs := ((sid, ns), l ++ [peer]) :: w.nodeRegs.filter (·.1 != (sid, ns)) }, "ok")
+  | ["nhist", sid, "imported", ns, kind] => do
+    let sid ← parseNat? sid
+    let ns ← Bytes.ofHex ns
+    let kind ← parseNat? kind
+    let hist := (w.imports.lookup (1000 + sid)).getD []
+    pure ({ w with imports := (1000 + sid, (ns, kind) :: hist) :: w.imports.filter (·.1 != 1000 + sid) }, "ok")
+  -- C15 / C17: setting a policy and registering a peer succeed exactly for a document that exists
+  -- (imported or created and not removed since)
+  | ["nsknown", sid, ns] => do
+    let sid ← parseNat? sid
+    let ns ← Bytes.ofHex ns
+    let hist := (w.imports.lookup (1000 + sid)).getD []
+    pure (w, if hist.any (·.1 == ns) then "ok" else "err:no-document")
+  | ["nslist", sid] => do
+    let sid ← parseNat? sid
+    let hist := (w.imports.lookup (1000 + sid)).getD []
+    let docs := (hist.map (·.1)).eraseDups
+    let sorted := docs.toArray.qsort (fun a b => decide (a < b)) |>.toList
+    pure (w, "namespaces " ++ ";".intercalate (sorted.map fun ns =>
+      ns.toHex ++ "=" ++ (if hist.any (fun h => h.1 == ns && h.2 == 1) then "1" else "2")))
+  | ["nhist", sid, "dropped", ns] => do
+    let sid ← parseNat? sid
+    let ns ← Bytes.ofHex ns
+    pure ({ w with imports := (1000 + sid, ((w.imports.lookup (1000 + sid)).getD []).filter (·.1 != ns)) :: w.imports.filter (·.1 != 1000 + sid)
+                   nodeDocs := w.nodeDocs.filter (·.1 != (sid, ns))
+                   nodePolicy := w.nodePolicy.filter (·.1 != (sid, ns))
+                   nodeRegs := w.nodeRegs.filter (·.1 != (sid, ns)) }, "ok")
+  -- C05 at the client API: the query specification over the merge of the acknowledged writes
+  | "nsquery" :: sid :: ns :: q => do
+    let sid ← parseNat? sid
+    let ns ← Bytes.ofHex ns
+    let q ← parseQuery? q
+    pure (w, showEntries (QuerySpec.spec ((w.nodeDocs.lookup (sid, ns)).getD []) ns q))
+  | ["nsexact", sid, ns, au, key, incl] => do
+    let sid ← parseNat? sid
+    let ns ← Bytes.ofHex ns
+    let au ← Bytes.ofHex au
+    let key ← Bytes.ofHex key
+    let incl ← parseBool? incl
+    let hit := ((w.nodeDocs.lookup (sid, ns)).getD []).find? (fun e => e.author == au && e.key == key && (incl || !e.isEmpty))
+    pure (w, match hit with | some e => "some " ++ showEntry e | none => "none")
+  -- C15: the policy set last, or the default
+  | ["nspolicy", sid, ns] => do
+    let sid ← parseNat? sid
+    let ns ← Bytes.ofHex ns
+    pure (w, "policy " ++ showPolicy ((w.nodePolicy.lookup (sid, ns)).getD Tables.Policy.default))
+  -- C17: the five most recently registered distinct peers, most recent first
+  | ["nspeers", sid, ns] => do
+    let sid ← parseNat? sid
+    let ns ← Bytes.ofHex ns
+    let l := Tables.mruSpec [] ((w.nodeRegs.lookup (sid, ns)).getD [])
+    pure (w, if l.isEmpty then "peers none" else "peers " ++ ",".intercalate (l.map (·.toHex)))
+  -- C16: the protected content hashes are those of the entries held in any document of the node
+  | ["nshashes", sid] => do
+    let sid ← parseNat? sid
+    let es := (w.nodeDocs.filter (·.1.1 == sid)).flatMap (·.2)
+    pure (w, "hashes " ++ ",".intercalate (sortHex (es.map (·.hash))))
+  -- an expectation stated by the harness itself (a check that needs no model)
+  | ["expect", x] => some (w, x)
+  | _ => none
+
 def step (w : World) (line : String) : World × String :=
   let toks := (line.trimAscii.toString.splitOn " ").filter (· ≠ "")
+  match stepNode w toks with
+  | some r => r
+  | none =>
   match toks with
   | [] => (w, "")
   | "#" :: _ => (w, line)
